@@ -97,8 +97,22 @@ def rec(rep, ex: Explorer, cls: str):
         return [s, solver, LinV(K), make_query()], {}
 
     paths = ex.run(qual, setup, summaries=wrappers.SUMMARIES, key="zrec")
-    layer = each_item(layer_fam(K), not_falsified)
-    base = canon_items([HEAD, layer])
+    # The walk over the layers is written either as a self-call on k-1 or as a loop that decrements the index.  In the
+    # loop form the generic step is the loop iteration: its index is the loop-head value of the index variable (entry
+    # value k), the solver holds whatever the head holds (entry content H), and "continue with k-1" is the jump back.
+    Kx, heads, loop_id, idx_name = K, [HEAD], None, None
+    for p in paths:
+        for ev, Q in iter_events(p.events):
+            if ev.kind == "while.enter" and not Q and loop_id is None:
+                idx = [n for n, v in ev.entry.items() if v[0] == "val" and isinstance(v[1], LinV) and v[1].lin == K]
+                sol = [n for n, v in ev.entry.items() if v[0] == "solver" and list(flat(v[3])) == [HEAD]]
+                if len(idx) == 1 and len(sol) == 1:
+                    loop_id, idx_name = ev.id, idx[0]
+                    Kx = F.lin_term(("head", ev.id, idx[0]))
+                    heads = [HEAD, ("sym", ("head", ev.id, sol[0]))]
+    kterm = Kx[0][0][0]
+    layer = each_item(layer_fam(Kx), not_falsified)
+    base = canon_items(heads + [layer])
     n_rows = 0
     for p in paths:
         if p.outcome[0] == "raise":
@@ -112,7 +126,7 @@ def rec(rep, ex: Explorer, cls: str):
             where = f"{site}:{ev.node.lineno}"
             if not base <= items:
                 rep.violation("Z.layer-assert", where, "layer constraints at test", "the tests are asked under the accumulated non-falsification of layer k",
-                              extracted=show_items(flat(ev.frames)), required="⊇ " + show_items([HEAD, layer]), function=site)
+                              extracted=show_items(flat(ev.frames)), required="⊇ " + show_items(heads + [layer]), function=site)
                 roles[ev.qid] = "bad"
                 continue
             rep.ok("Z.layer-assert", where, "layer constraints at test", "accumulated ∀c∈P[k]: ¬(c.A∧¬c.B) in scope")
@@ -138,7 +152,7 @@ def rec(rep, ex: Explorer, cls: str):
         for key, val in p.decisions:
             if key[0] == "sat" and key[1] in roles:
                 env[roles[key[1]]] = val
-            elif key[0] == "cmp" and key[2][0] == "lin" and all(t == "k" for t, _ in key[2][1][0]):
+            elif key[0] == "cmp" and key[2][0] == "lin" and all(t == kterm for t, _ in key[2][1][0]):
                 kfacts.append((key, val))
             elif key[0] == "partfalse" or key[0] == "truthy" and key[1] == "weakly":
                 continue
@@ -147,6 +161,36 @@ def rec(rep, ex: Explorer, cls: str):
             else:
                 raise AnalysisError(f"{site}: outcome depends on {key!r}")
         recs = [ev for ev, Q in iter_events(p.events) if ev.kind == "recurse"]
+        if p.outcome[0] == "loopback" and p.outcome[1] == loop_id:
+            # the jump back to the head of the layer loop is the continuation with the values carried back
+            snapd = p.outcome[2]
+            back = [ev for ev, Q in iter_events(p.events) if ev.kind == "while.back" and not Q]
+            node = back[-1].node if back else None
+            n_idx = snapd.get(idx_name)
+            ok_idx = n_idx is not None and n_idx[0] == "val" and isinstance(n_idx[1], LinV) and n_idx[1].lin == F.lin_add(Kx, F.lin_const(-1))
+            for v, f, kv in product((True, False), (True, False), range(0, 3)):
+                if env["v"] not in (None, v) or env["f"] not in (None, f):
+                    continue
+                okk = True
+                for key, val in kfacts:
+                    lin = key[2][1]
+                    x = sum(c * kv for t, c in lin[0]) + lin[1]
+                    if ((x == 0) if key[1] == "==" else (x < 0)) != val:
+                        okk = False
+                if not okk:
+                    continue
+                want = "F" if not v else ("T" if not f else ("F" if kv == 0 else "REC"))
+                n_rows += 1
+                rep.check(want == "REC", "Z.decision", site, f"v={v} f={f} k{'=0' if kv == 0 else '>0'}", "outcome REC", extracted="REC", required=want, function=site)
+            where = f"{site}:{getattr(node, 'lineno', '?')}"
+            rep.check(ok_idx, "Z.decision", where, "recursion index", "the recursion continues with the next lower layer", extracted=repr(n_idx[1]) if n_idx else "index not carried", required="k-1", function=site)
+            ss = [v for n, v in snapd.items() if v[0] == "solver"]
+            ok_s = len(ss) == 1 and canon_items(flat(ss[0][3])) == base
+            rep.check(ok_s, "Z.tests", where, "scope at recursion", "test formulas are removed before the next layer; layer constraints persist",
+                      extracted=show_items(flat(ss[0][3])) if ss else "no solver", required=show_items(heads + [layer]), function=site)
+            qv = snapd.get("query")
+            rep.check(qv is None or (qv[0] == "val" and isinstance(qv[1], ElemV) and qv[1].var == QUERY), "Z.decision", where, "recursion query", "same query", extracted=repr(qv), required="query", function=site)
+            continue
         rv = p.outcome[1]
         # outcome as a function of the recursive answer
         pr = returned_bool(None, rv)
@@ -184,13 +228,13 @@ def rec(rep, ex: Explorer, cls: str):
             for r in recs:
                 a = r.args
                 snap = r.snap
-                ok_idx = isinstance(a[2], LinV) and a[2].lin == F.lin_add(K, F.lin_const(-1))
+                ok_idx = isinstance(a[2], LinV) and a[2].lin == F.lin_add(Kx, F.lin_const(-1))
                 rep.check(ok_idx, "Z.decision", f"{site}:{r.node.lineno}", "recursion index", "the recursion continues with the next lower layer",
                           extracted=repr(a[2]), required="k-1", function=site)
                 ss = [s for s in snap if s[0] == "solver"]
                 ok_s = len(ss) == 1 and canon_items(flat(ss[0][3])) == base
                 rep.check(ok_s, "Z.tests", f"{site}:{r.node.lineno}", "scope at recursion", "test formulas are removed before the next layer; layer constraints persist",
-                          extracted=show_items(flat(ss[0][3])) if ss else "no solver", required=show_items([HEAD, layer]), function=site)
+                          extracted=show_items(flat(ss[0][3])) if ss else "no solver", required=show_items(heads + [layer]), function=site)
                 ok_q = isinstance(a[3], ElemV) and a[3].var == QUERY
                 rep.check(ok_q, "Z.decision", f"{site}:{r.node.lineno}", "recursion query", "same query", extracted=repr(a[3]), required="query", function=site)
     rep.floor("Z decision rows", n_rows, 8)
